@@ -516,6 +516,14 @@ func handedToGoroutineBefore(a access) ssa.Instruction {
 		if l2, ok2 := obj.(*ssa.UnOp); ok2 && l2.X == v {
 			return true // the variable itself is captured
 		}
+		// the captured variable holds the object
+		if al, isAl := v.(*ssa.Alloc); isAl && al.Referrers() != nil {
+			for _, r := range *al.Referrers() {
+				if st, isSt := r.(*ssa.Store); isSt && st.Addr == ssa.Value(al) && strip(st.Val) == obj {
+					return true
+				}
+			}
+		}
 		return false
 	}
 	var found ssa.Instruction
@@ -675,6 +683,9 @@ func (c *Ctx) checkLockPairing(rule string, scope []*ssa.Function) {
 				if _, k := lockOp(ci); k != opNone {
 					hasLockOp = true
 				}
+				if callee := staticCallee(ci); callee != nil && len(le.acq[callee].m) > 0 {
+					hasLockOp = true
+				}
 			}
 		})
 		if !hasLockOp {
@@ -702,6 +713,34 @@ func (c *Ctx) checkLockPairing(rule string, scope []*ssa.Function) {
 					bad = true
 					c.viol(rule, key, p.instrPos(ret), fmt.Sprintf("returns with %s still held on this path but not on every path", k))
 				}
+			}
+		}
+		// a function that returns holding a lock it acquired on every path is a locking helper only if some
+		// caller goes on after the call (and releases it there, which this rule checks for that caller in turn); a
+		// function that is only started as a goroutine, deferred, dispatched dynamically or not called at all keeps
+		// the lock for ever
+		for k, h := range le.acq[fn].m {
+			if h == heldNone || entry.m[k] != heldNone {
+				continue
+			}
+			plain := false
+			for _, ci := range p.realCallers(fn) {
+				if _, isCall := ci.(*ssa.Call); isCall {
+					plain = true
+				}
+			}
+			// a helper nobody calls (half of an exported Lock/Unlock pair, say) holds nothing
+			called := false
+			if node := p.CallGraph().Nodes[fn]; node != nil {
+				for _, e := range node.In {
+					if e.Site != nil && e.Caller != nil && e.Caller.Func != nil && p.IsRepoFn(e.Caller.Func) {
+						called = true
+					}
+				}
+			}
+			if !plain && called {
+				bad = true
+				c.viol(rule, key, p.Pos(fn.Pos()), fmt.Sprintf("returns with %s held on every path, and no caller continues after the call to release it (it is started with go, deferred or called through a function value or an interface): the lock is never released", k))
 			}
 		}
 		// may-held at return: a lock acquired on some path and not released
@@ -749,11 +788,23 @@ func (le *LockEngine) leakPath(fn *ssa.Function) string {
 			}
 			key, kind := lockOp(c)
 			if kind != opLock && kind != opRLock {
-				continue
+				// a call of a helper that returns holding a lock acquires it here
+				key = ""
+				if callee := staticCallee(c); callee != nil && callee != fn {
+					for k, h := range le.acq[callee].m {
+						if h != heldNone && le.entry[callee].m[k] == heldNone {
+							key = k
+						}
+					}
+				}
+				if key == "" {
+					continue
+				}
 			}
 			if deferred[key] {
 				continue
 			}
+			self := in
 			// search forward for a Return not preceded by an unlock of key
 			type pos struct {
 				b *ssa.BasicBlock
@@ -765,6 +816,9 @@ func (le *LockEngine) leakPath(fn *ssa.Function) string {
 				for j := start; j < len(b.Instrs); j++ {
 					switch y := b.Instrs[j].(type) {
 					case *ssa.Call:
+						if ssa.Instruction(y) == self {
+							return "itself (next iteration)"
+						}
 						if k2, kind2 := lockOp(y); k2 == key && (kind2 == opUnlock || kind2 == opRUnlock) {
 							return ""
 						}
@@ -789,6 +843,9 @@ func (le *LockEngine) leakPath(fn *ssa.Function) string {
 				return ""
 			}
 			if r := dfs(b, i+1); r != "" {
+				if r == "itself (next iteration)" {
+					return fmt.Sprintf("%s acquired at %s is acquired there again by the next iteration without having been released", key, le.p.instrPos(in))
+				}
 				return fmt.Sprintf("%s acquired at %s can reach the return at %s without being released", key, le.p.instrPos(in), r)
 			}
 		}
